@@ -119,6 +119,12 @@ def execute(ctx, case):
         ci = getattr(cm, nm)(alpha=a1)
         ci2 = getattr(cm, nm)(alpha=a2)
         cc = getattr(cm, comp)(alpha=a1)
+        # the method is the module function at the alpha it was given - by keyword, positionally, or defaulted - whatever was asked before
+        ci_pos = getattr(cm, nm)(a2)
+        ci_def = getattr(cm, nm)()
+        for got_, al_, how in ((ci, a1, "keyword, first call"), (ci2, a2, "keyword, after another alpha"), (ci_pos, a2, "positional"), (ci_def, 0.05, "default alpha after other alphas")):
+            C(np.array_equal(np.asarray(got_, dtype=float), np.asarray(getattr(M, nm)(m, al_), dtype=float), equal_nan=True),
+              "interval method differs from the module function at the requested alpha", "met-ci-method", ci=nm, alpha=al_, how=how)
         fin = ~np.isnan(ci[..., 0])
         C(np.all(ci[..., 0][fin] <= ci2[..., 0][fin] + 1e-15 + (at_ci if rt > 1e-12 else 0)) and np.all(ci[..., 1][fin] >= ci2[..., 1][fin] - 1e-15 - (at_ci if rt > 1e-12 else 0)), "intervals not nested in alpha", "met-ci-nested", ci=nm, alphas=[a1, a2])
         C(np.allclose(cc[..., 0], 1 - ci[..., 1], atol=at_ci, rtol=0, equal_nan=True) and np.allclose(cc[..., 1], 1 - ci[..., 0], atol=at_ci, rtol=0, equal_nan=True),
